@@ -1,6 +1,6 @@
 #!/bin/bash
 # try_seed.sh <patch.diff> <PROP> [more check args] : applies a seeded change to /repo, runs the check, reverts.
 P=$1; shift
-cd /repo && git apply "$P" || { echo "patch does not apply"; exit 2; }
+cd /repo && { [ -z "$(git status --porcelain --untracked-files=no)" ] || { echo "REFUSING: /repo has uncommitted tracked changes"; exit 3; }; } && git apply "$P" || { echo "patch does not apply"; exit 2; }
 cd /verif && ./check "$@" 2>&1 | grep -E "^(VIOLATION|KNOWN|RESULT|BUILD|HARNESS|  key|  msg|  trace)" | cut -c1-400
 cd /repo && git checkout -- . 
